@@ -211,6 +211,7 @@ func runC0405(cfg *config, res *monitor.Result) {
 			for pass := 0; pass < 3; pass++ {
 				emptyNonNil = pass == 1
 				nilElems = pass == 2
+				nilMapValues = nilElems && isC04
 				repTag := ""
 				if emptyNonNil {
 					if c.Class == "random" && ci%4 != 0 {
@@ -312,7 +313,7 @@ func runC0405(cfg *config, res *monitor.Result) {
 					}
 				}
 			}
-			emptyNonNil, nilElems = false, false
+			emptyNonNil, nilElems, nilMapValues = false, false, false
 			if nonTrivial {
 				cls := c.Class
 				if c.Field != "" {
